@@ -82,9 +82,7 @@ def run(repo, res, tier):
                         "literal annotation: 1e-7 in magnet_cylinder_segment_Hfield stands for mu0/4pi",
                         "summarised callees: cel, cel_iter, el3_angle (dimensionless in, dimensionless out), check_field_input"]
     if errors:
-        if any(f for f in res.findings):
-            res.notes += errors
-        if not res.findings:
+        if not res.new_findings():
             raise AnalysisError("construct outside the modelled fragment: " + " | ".join(errors[:3]))
         res.notes += errors
     return {"unsupported": errors}
